@@ -998,6 +998,8 @@ pub fn run(ctx: &mut Ctx) {
         let mut rets: Vec<String> = vec![];
         let mut encs: Vec<Result<Vec<u8>, String>> = vec![];
         let mut api_panic: Option<(String, String)> = None;
+        // conversions of a live local function that the API refused (returned `false`)
+        let mut l2i_refused: Vec<String> = vec![];
         let mut imports_len = base.case_tokens.split(' ').find(|t| t.starts_with("IMP=")).map_or(0, |t| if &t[4..] == "-" { 0 } else { t[4..].split(',').count() }) as u32;
         // ImportsID of each function-import handle (for replace_import)
         let mut import_ids: HashMap<usize, u32> = HashMap::new();
@@ -1138,6 +1140,10 @@ pub fn run(ctx: &mut Ctx) {
                             import_ids.insert(*h, imports_len);
                             imports_len += 1;
                         }
+                        (Op::L2i { h, .. }, Ret::Bool(false)) => {
+                            // only live *local* functions are ever converted: a refusal leaves the body where C11 wants an import
+                            l2i_refused.push(format!("function id {} after {}", w.handles[*h].id, op_tokens[..op_tokens.len() - 1].join(";")));
+                        }
                         (Op::Ri { h: Some(h), uid, .. }, _) => {
                             w.handles[*h].cur = Some(*uid);
                             import_ids.remove(h);
@@ -1233,6 +1239,9 @@ pub fn run(ctx: &mut Ctx) {
             Sp::M => "C08",
         };
         let mut failures: Vec<(String, String, String)> = vec![]; // (props, sig, detail)
+        for d in &l2i_refused {
+            failures.push(("C11".into(), "conversion-of-local-function-refused".into(), d.clone()));
+        }
         if let Some((tok, p)) = &api_panic {
             let opn = tok.split(':').next().unwrap();
             let prop = match opn {
